@@ -137,7 +137,8 @@ StepB(e) ==
          b == <<e.kind, e.origin>>
          r == EchoRecv(IF HasBoard(to) THEN "setup" ELSE "idle", thash[to], b)
          A1 == If(e.ok # ~r.lost, Conf(e, "bundle refused/accepted differently from EchoRecv (board)"))
-         A2 == If(~r.lost /\ e.ok /\ e.known # (b \in thash[to]), Conf(e, "dedupe by hash differs from EchoRecv"))
+         \* (a node knows its own bundle from the moment it pushes it; the push may be logged a moment later)
+         A2 == If(~r.lost /\ e.ok /\ e.known # (b \in thash[to] \/ e.origin = to), Conf(e, "dedupe by hash differs from EchoRecv"))
          A3 == If(~r.lost /\ e.ok /\ ~e.after, Conf(e, "bundle not remembered after delivery"))
      IN /\ alarms' = alarms \cup A1 \cup A2 \cup A3
         /\ thash' = IF e.ok /\ e.after THEN [thash EXCEPT ![to] = @ \cup {b}] ELSE thash
